@@ -9,6 +9,10 @@
 (*   of glue symbols and exactly one macro symbol.                         *)
 (*   A symbol expands to a sequence of character codes (a macro to a long  *)
 (*   one: a digest, a run of 127..256 characters, a host).                 *)
+(* mode "wrap":  s is <<reference, white-space symbol, position>>: a valid   *)
+(*   reference with a "trimmable" code point (space, tab, LF, VT, FF, CR,  *)
+(*   U+0085, U+00A0, U+2028, U+3000 as UTF-8 bytes) put before it, after   *)
+(*   it, on both sides, or after its first symbol.  None of them parses.   *)
 (* mode "parts": s is <<host, repo, tag, digest>> chosen from tables of    *)
 (*   valid and invalid parts (each a sequence of symbols); the case string *)
 (*   is PrintRef of the parts.                                             *)
@@ -65,6 +69,12 @@ Exp(y) ==
     [] y = "HPORT" -> <<108, 111, 99, 97, 108, 104, 111, 115, 116, 58, 53, 48, 48, 48>>  \* localhost:5000
     [] y = "HV6" -> <<91, 50, 48, 48, 49, 58, 100, 66, 56, 58, 58, 49, 93>>              \* [2001:dB8::1]
     [] y = "HV6P" -> <<91, 58, 58, 49, 93, 58, 52, 52, 51>>                              \* [::1]:443
+    [] y = "WSP" -> <<32>> [] y = "WTAB" -> <<9>> [] y = "WLF" -> <<10>> [] y = "WVT" -> <<11>>
+    [] y = "WFF" -> <<12>> [] y = "WCR" -> <<13>>
+    [] y = "WNEL" -> <<194, 133>>                 \* U+0085
+    [] y = "WNBSP" -> <<194, 160>>                \* U+00A0
+    [] y = "WLS" -> <<226, 128, 168>>             \* U+2028
+    [] y = "WIDSP" -> <<227, 128, 128>>           \* U+3000
     [] y = "HL261" -> HostOfLen(261) [] y = "HL262" -> HostOfLen(262) [] y = "HL300" -> HostOfLen(300)
     [] y = "HL1000" -> HostOfLen(1000) [] y = "HL4096" -> HostOfLen(4096)
     [] y = "A300" -> Rep(97, 300) [] y = "A1000" -> Rep(97, 1000)
@@ -87,9 +97,22 @@ Table(k) ==
   THEN (CASE k = 1 -> HostsFull [] k = 2 -> ReposFull [] k = 3 -> TagsFull [] k = 4 -> DigestsFull)
   ELSE (CASE k = 1 -> HostsSmall [] k = 2 -> ReposSmall [] k = 3 -> TagsSmall [] k = 4 -> DigestsSmall)
 
+\* ------------------------------------------------------------- wrap tables
+WsSyms == {"WSP", "WTAB", "WLF", "WVT", "WFF", "WCR", "WNEL", "WNBSP", "WLS", "WIDSP"}
+WrapRefs == {<<"HDOM", "/", "a">>, <<"HPORT", "/", "a", ":", "A">>, <<"HV6P", "/", "a", "@", "D256">>,
+             <<"a", ".", "a", "/", "a", ":", "a", "@", "D512">>, <<"a">>, <<"a", ":", "a">>}
+WrapPos == {"pre", "post", "both", "mid"}
+WrapTable(k) == CASE k = 1 -> WrapRefs [] k = 2 -> {<<w>> : w \in WsSyms} [] k = 3 -> {<<q>> : q \in WrapPos}
+WrapStr(q) ==
+  LET r == Expand(q[1])
+      w == Exp(q[2][1])
+      pos == q[3][1]
+  IN CASE pos = "pre" -> w \o r [] pos = "post" -> r \o w [] pos = "both" -> w \o r \o w
+       [] pos = "mid" -> Exp(Head(q[1])) \o w \o Expand(Tail(q[1]))
+
 \* ------------------------------------------------------------ enumeration
 NMacro(q) == Cardinality({i \in 1..Len(q) : q[i] \in MacroSyms})
-Init == s = <<>> /\ mode \in (IF PartsLevel > 0 THEN {"flat", "parts"} ELSE {"flat"})
+Init == s = <<>> /\ mode \in (IF PartsLevel > 0 THEN {"flat", "parts", "wrap"} ELSE {"flat"})
 Next ==
   /\ UNCHANGED mode
   /\ \/ /\ mode = "flat" /\ NMacro(s) = 0 /\ Len(s) < MaxFlat
@@ -99,13 +122,15 @@ Next ==
         /\ \E y \in (IF NMacro(s) = 0 THEN MacroSyms ELSE GlueSyms) : s' = Append(s, y)
      \/ /\ mode = "parts" /\ Len(s) < 4
         /\ \E q \in Table(Len(s) + 1) : s' = Append(s, q)
+     \/ /\ mode = "wrap" /\ Len(s) < 3
+        /\ \E q \in WrapTable(Len(s) + 1) : s' = Append(s, q)
 Spec == Init /\ [][Next]_<<mode, s>>
 
 \* Is this state a case?  (flat: every state; a flat glue-only prefix that is waiting for
 \* its macro is also a base string, enumerated on the other branch - same state, once.)
-IsCase == mode = "flat" \/ Len(s) = 4
+IsCase == mode = "flat" \/ (mode = "parts" /\ Len(s) = 4) \/ (mode = "wrap" /\ Len(s) = 3)
 Parts == [host |-> Expand(s[1]), repo |-> Expand(s[2]), tag |-> Expand(s[3]), digest |-> Expand(s[4])]
-Str == IF mode = "flat" THEN Expand(s) ELSE PrintRef(Parts)
+Str == IF mode = "flat" THEN Expand(s) ELSE IF mode = "wrap" THEN WrapStr(s) ELSE PrintRef(Parts)
 
 \* ------------------------------------------------------------------- laws
 \* One invariant checks the laws and exports the case, so that Splits is computed once.
@@ -114,7 +139,9 @@ MCLaws ==
                 S == Splits(c)
             IN /\ LawsOn(c, S)
                /\ mode = "parts" => PrintParseFor(Parts)
+               \* white space around or inside a reference is not part of any reference
+               /\ mode = "wrap" => (S = {} /\ ~ParseRelativeOf(S).ok /\ ~CodeParseRelative(c).ok)
                /\ PrintT(<<"MBT", ToJson(
-                     IF mode = "flat" THEN [kind |-> "str", s |-> c, v |-> Export(VerdictOn(c, S))]
+                     IF mode # "parts" THEN [kind |-> "str", s |-> c, v |-> Export(VerdictOn(c, S))]
                      ELSE [kind |-> "parts", p |-> RefSeq(Parts), s |-> c, v |-> Export(VerdictOn(c, S))])>>)
 =============================================================================
